@@ -18,7 +18,7 @@ RULE = ('seeded stratified generation: relation kind x right-hand type x operand
 ASSUMPTIONS = ['exactq.cmp (integer comparison after alignment) is correct; CPython\'s hash of int/float/complex is the reference',
                'operands are injected exactly through ctx.make_mpf/make_mpc (raw tuples)',
                'nan hashes are not compared (nan is unequal to everything)']
-SHARD_TIMEOUT = {'quick': 300, 'thorough': 2400}
+SHARD_TIMEOUT = {'quick': 600, 'thorough': 3600}
 LEVEL_TEXT = ('exploration: ~5*10^5 (quick) / ~6*10^6 (thorough) generated pairs; every ordering/equality result compared with the exact '
               'relation, every pair of equal numbers of different type compared by hash and used as interchangeable dict/set keys')
 LEVEL_NOTE = 'trusted base: vf/exactq.py comparison + CPython hash(); inputs not generated are not covered'
